@@ -66,3 +66,201 @@ Proof.
   intros [Hn HP] Hf. split; [exact Hn|]. unfold set_pool. cbn [s_vms s_probes s_env].
   destruct s as [[p n cr] vms probes]. cbn in *. eapply PInv_frame; eauto.
 Qed.
+
+(* ---------------- list plumbing ---------------- *)
+Lemma NoDup_app_iff {A} (a b : list A) : NoDup (a ++ b) <-> NoDup a /\ NoDup b /\ (forall x, In x a -> ~ In x b).
+Proof.
+  induction a as [|x r IH]; cbn [app].
+  - split; [intros H; split; [constructor|split; [exact H|intros x []]]|intros (_ & H & _); exact H].
+  - rewrite !NoDup_cons_iff, IH, in_app_iff. split.
+    + intros (Hn & Hr & Hb & Hd). split; [split; [tauto|exact Hr]|]. split; [exact Hb|].
+      intros y [<-|Hy]; [tauto|apply Hd; exact Hy].
+    + intros ((Hn & Hr) & Hb & Hd). split; [intros [H|H]; [tauto|exact (Hd x (or_introl eq_refl) H)]|].
+      split; [exact Hr|]. split; [exact Hb|]. intros y Hy. apply Hd. right; exact Hy.
+Qed.
+
+(* replacing a middle segment by a duplicate-free part of it keeps the whole duplicate-free *)
+Lemma NoDup_shrink_mid {A} (x p p' y : list A) :
+  NoDup (x ++ p ++ y) -> NoDup p' -> incl p' p -> NoDup (x ++ p' ++ y).
+Proof.
+  rewrite !NoDup_app_iff. intros (Hx & (Hp & Hy & Hpy) & Hxpy) Hp' Hi.
+  split; [exact Hx|]. split; [split; [exact Hp'|split; [exact Hy|intros z Hz; apply Hpy; apply Hi; exact Hz]]|].
+  intros z Hz Hin. apply (Hxpy z Hz). apply in_app_iff. apply in_app_iff in Hin. destruct Hin as [Hin|Hin]; [left; apply Hi; exact Hin|right; exact Hin].
+Qed.
+
+Lemma remove_one_incl u l : incl (remove_one u l) l.
+Proof.
+  induction l as [|x r IH]; cbn [remove_one]; [intros y []|].
+  destruct (N.eqb x u); [intros y Hy; right; exact Hy|intros y [<-|Hy]; [left; reflexivity|right; apply IH; exact Hy]].
+Qed.
+Lemma remove_one_nodup u l : NoDup l -> NoDup (remove_one u l).
+Proof.
+  induction l as [|x r IH]; cbn [remove_one]; [auto|]. intros H. apply NoDup_cons_iff in H. destruct H as [Hn Hr].
+  destruct (N.eqb x u); [exact Hr|]. constructor; [intros Hin; apply Hn; apply (remove_one_incl u r); exact Hin|apply IH; exact Hr].
+Qed.
+
+(* ---------------- VM plumbing ---------------- *)
+Lemma find_vm_id id l v : find_vm id l = Some v -> v_id v = id.
+Proof.
+  induction l as [|x r IH]; cbn [find_vm]; [discriminate|].
+  destruct (N.eqb (v_id x) id) eqn:E; [intros H; injection H as <-; apply N.eqb_eq; exact E|exact IH].
+Qed.
+Lemma find_vm_split id l v : find_vm id l = Some v -> exists a b, l = a ++ v :: b /\ find_vm id a = None.
+Proof.
+  induction l as [|x r IH]; cbn [find_vm]; [discriminate|].
+  destruct (N.eqb (v_id x) id) eqn:E.
+  - intros H; injection H as <-. exists [], r. split; reflexivity.
+  - intros H. destruct (IH H) as (a & b & -> & Ha). exists (x :: a), b. split; [reflexivity|]. cbn [find_vm]. rewrite E. exact Ha.
+Qed.
+Lemma put_vm_split id a v b v' : find_vm id a = None -> v_id v = id -> v_id v' = id ->
+  put_vm v' (a ++ v :: b) = a ++ v' :: b.
+Proof.
+  intros Ha Hv Hv'. induction a as [|x r IH]; cbn [app put_vm find_vm] in *.
+  - rewrite Hv, Hv', N.eqb_refl. reflexivity.
+  - destruct (N.eqb (v_id x) id) eqn:E; [discriminate|]. rewrite Hv', E. rewrite IH; [reflexivity|exact Ha].
+Qed.
+Lemma find_vm_app id a b : find_vm id (a ++ b) = match find_vm id a with Some x => Some x | None => find_vm id b end.
+Proof. induction a as [|x r IH]; cbn [app find_vm]; [reflexivity|]. destruct (N.eqb (v_id x) id); [reflexivity|exact IH]. Qed.
+
+Lemma set_procs_split id f l v : find_vm id l = Some v ->
+  exists a b, l = a ++ v :: b /\ find_vm id a = None /\
+              set_procs id f l = a ++ mkvm (v_id v) (v_it v) (f (v_procs v)) :: b.
+Proof.
+  intros H. unfold set_procs. rewrite H. destruct (find_vm_split _ _ _ H) as (a & b & -> & Ha).
+  exists a, b. split; [reflexivity|]. split; [exact Ha|].
+  apply (put_vm_split id); [exact Ha|eapply find_vm_id; eauto|cbn; eapply find_vm_id; eauto].
+Qed.
+Lemma set_procs_none id f l : find_vm id l = None -> set_procs id f l = l.
+Proof. intros H. unfold set_procs. rewrite H. reflexivity. Qed.
+Lemma find_vm_in id l v : find_vm id l = Some v -> In v l.
+Proof. intros H. destruct (find_vm_split _ _ _ H) as (a & b & -> & _). apply in_or_app. right; left; reflexivity. Qed.
+
+(* find_vm in the list with one VM's processes replaced *)
+Lemma find_vm_replaced id a v b v' id' :
+  find_vm id a = None -> v_id v = id -> v_id v' = id ->
+  find_vm id' (a ++ v' :: b) = if N.eqb id' id then Some v' else find_vm id' (a ++ v :: b).
+Proof.
+  intros Ha Hv Hv'. rewrite !find_vm_app. cbn [find_vm]. rewrite Hv, Hv'.
+  destruct (N.eqb id' id) eqn:E.
+  - apply N.eqb_eq in E. subst id'. rewrite Ha, N.eqb_refl. reflexivity.
+  - rewrite (N.eqb_sym id id'). rewrite E. reflexivity.
+Qed.
+
+(* a VM's process list is replaced by a duplicate-free part of it: what the invariant needs *)
+Lemma set_procs_shrink vms probes e id f :
+  NoDup (map v_id vms) -> PInv vms probes e ->
+  (forall l, NoDup l -> NoDup (f l)) -> (forall l, incl (f l) l) ->
+  NoDup (map v_id (set_procs id f vms)) /\ PInv (set_procs id f vms) probes e.
+Proof.
+  intros Hn [A B C D E F G] Hf1 Hf2.
+  destruct (find_vm id vms) as [v|] eqn:Ev; [|rewrite (set_procs_none _ _ _ Ev); split; [exact Hn|constructor; assumption]].
+  destruct (set_procs_split id f vms v Ev) as (a & b & Hl & Ha & Hs). rewrite Hs.
+  pose proof (find_vm_id _ _ _ Ev) as Hvid.
+  set (v' := mkvm (v_id v) (v_it v) (f (v_procs v))).
+  assert (Hids : map v_id (a ++ v' :: b) = map v_id vms).
+  { rewrite Hl, !map_app. reflexivity. }
+  split; [rewrite Hids; exact Hn|].
+  assert (Hin : forall x, In x (a ++ v' :: b) -> x = v' \/ In x vms).
+  { intros x Hx. apply in_app_or in Hx. rewrite Hl.
+    destruct Hx as [Hx|[<-|Hx]]; [right; apply in_or_app; left; exact Hx|left; reflexivity|right; apply in_or_app; right; right; exact Hx]. }
+  constructor; try assumption.
+  - intros x Hx. destruct (Hin x Hx) as [->|Hx']; [|apply C; exact Hx'].
+    cbn [v_id v']. apply C. eapply find_vm_in; eauto.
+  - intros x Hx. destruct (Hin x Hx) as [->|Hx']; [|apply D; exact Hx'].
+    cbn [v' v_id v_procs]. specialize (D v (find_vm_in _ _ _ Ev)).
+    destruct (find_w (v_id v) (p_workers (pe_pool e))); [|exact I].
+    destruct D as [D|D]; [left; exact D|right]. intros y Hy. apply D. apply (Hf2 _ y Hy).
+  - rewrite Hl in E. rewrite !flat_map_app in *. cbn [flat_map] in *. rewrite <- !app_assoc in *.
+    cbn [v' v_procs]. apply (NoDup_shrink_mid _ (v_procs v)); [exact E| |apply Hf2].
+    apply Hf1. apply NoDup_app_iff in E. destruct E as (_ & E & _). apply NoDup_app_iff in E. tauto.
+  - intros pb r Hp. destruct (F pb r Hp) as [F1 F2]. split; [exact F1|].
+    intros w x Hw Hx Hst.
+    rewrite (find_vm_replaced id a v b v' (pb_id pb) Ha Hvid Hvid) in Hx. rewrite <- Hl in Hx.
+    destruct (N.eqb (pb_id pb) id) eqn:Eq.
+    + injection Hx as <-. apply N.eqb_eq in Eq. cbn [v' v_procs]. intros y Hy.
+      apply (F2 w v Hw); [rewrite Eq; exact Ev|exact Hst|apply (Hf2 _ y Hy)].
+    + apply (F2 w x Hw Hx Hst).
+Qed.
+
+(* ---------------- steps that only reframe the pool ---------------- *)
+Lemma spool_set_pool s p : spool (set_pool s p) = p.
+Proof. reflexivity. Qed.
+
+(* ---------------- LProcExit ---------------- *)
+Lemma step_procexit c id u s s' : Inv s -> step c (LProcExit id u) s = Some s' -> Inv s'.
+Proof.
+  intros [Hn HP] H. cbn [step] in H. injection H as <-. unfold Inv. cbn [s_vms s_probes s_env].
+  apply set_procs_shrink; auto; [intros l; apply remove_one_nodup|intros l; apply remove_one_incl].
+Qed.
+
+(* ---------------- LVMGone ---------------- *)
+Lemma find_vm_filter_ne id gone l : id <> gone ->
+  find_vm id (filter (fun v => negb (N.eqb (v_id v) gone)) l) = find_vm id l.
+Proof.
+  intros Hne. induction l as [|x r IH]; cbn [filter find_vm]; [reflexivity|].
+  destruct (N.eqb (v_id x) gone) eqn:E; cbn [negb find_vm].
+  - apply N.eqb_eq in E. assert (N.eqb (v_id x) id = false) by (apply N.eqb_neq; congruence). rewrite H. exact IH.
+  - destruct (N.eqb (v_id x) id); [reflexivity|exact IH].
+Qed.
+Lemma find_vm_filter_eq gone l : find_vm gone (filter (fun v => negb (N.eqb (v_id v) gone)) l) = None.
+Proof.
+  induction l as [|x r IH]; cbn [filter find_vm]; [reflexivity|].
+  destruct (N.eqb (v_id x) gone) eqn:E; cbn [negb find_vm]; [exact IH|rewrite E; exact IH].
+Qed.
+Lemma NoDup_flat_filter {A B} (f : A -> list B) (g : A -> bool) l y :
+  NoDup (flat_map f l ++ y) -> NoDup (flat_map f (filter g l) ++ y).
+Proof.
+  induction l as [|x r IH]; cbn [flat_map filter]; [auto|]. intros H. rewrite <- app_assoc in H.
+  destruct (g x); cbn [flat_map].
+  - rewrite <- app_assoc. apply NoDup_app_iff in H. destruct H as (H1 & H2 & H3). apply NoDup_app_iff.
+    split; [exact H1|]. split; [apply IH; exact H2|]. intros z Hz Hin. apply (H3 z Hz).
+    apply in_app_iff in Hin. apply in_app_iff. destruct Hin as [Hin|Hin]; [left|right; exact Hin].
+    apply in_flat_map in Hin. destruct Hin as (a & Ha & Hza). apply in_flat_map. exists a. apply filter_In in Ha. tauto.
+  - apply IH. apply NoDup_app_iff in H. tauto.
+Qed.
+Lemma NoDup_map_filter {A B} (f : A -> B) (g : A -> bool) l : NoDup (map f l) -> NoDup (map f (filter g l)).
+Proof.
+  induction l as [|x r IH]; cbn [map filter]; [auto|]. intros H. apply NoDup_cons_iff in H. destruct H as [Hx Hr].
+  destruct (g x); cbn [map]; [|auto]. constructor; [|auto]. intros Hin. apply Hx.
+  apply in_map_iff in Hin. destruct Hin as (a & <- & Ha). apply in_map. apply filter_In in Ha. tauto.
+Qed.
+
+Lemma step_vmgone c id s s' : Inv s -> step c (LVMGone id) s = Some s' -> Inv s'.
+Proof.
+  intros [Hn [A B C D E F G]] H. cbn [step] in H. injection H as <-. unfold Inv. cbn [s_vms s_probes s_env].
+  split; [apply NoDup_map_filter; exact Hn|]. constructor; try assumption.
+  - intros v Hv. apply C. apply filter_In in Hv. tauto.
+  - intros v Hv. apply D. apply filter_In in Hv. tauto.
+  - apply NoDup_flat_filter. exact E.
+  - intros pb r Hp. destruct (F pb r Hp) as [F1 F2]. split; [exact F1|]. intros w v Hw Hv Hst.
+    destruct (N.eq_dec (pb_id pb) id) as [Heq|Hne]; [rewrite Heq in Hv; rewrite find_vm_filter_eq in Hv; discriminate|].
+    rewrite find_vm_filter_ne in Hv by exact Hne. exact (F2 w v Hw Hv Hst).
+Qed.
+
+(* ---------------- LRestart ---------------- *)
+Lemma step_restart c s s' : Inv s -> step c LRestart s = Some s' -> Inv s'.
+Proof.
+  intros [Hn [A B C D E F G]] H. cbn [step] in H. injection H as <-. unfold Inv. cbn [s_vms s_probes s_env].
+  split; [exact Hn|]. constructor; cbn [pe_pool pe_next empty_pool p_workers p_clock map].
+  - constructor.
+  - intros w [].
+  - exact C.
+  - intros v Hv. cbn [find_w]. exact I.
+  - unfold starting_all. cbn [p_workers flat_map]. rewrite app_nil_r. apply NoDup_app_iff in E. tauto.
+  - intros pb r [].
+  - intros w [].
+Qed.
+
+(* ---------------- the pure reframing steps ---------------- *)
+Lemma step_frame_labels c l s s' :
+  match l with LKill _ | LGiveUp _ _ | LForget _ | LSetIB _ _ | LShutdownType _ _ | LSweep => True | _ => False end ->
+  Inv s -> step c l s = Some s' -> Inv s'.
+Proof.
+  intros Hl HI H. destruct l; try contradiction; cbn [step] in H; injection H as <-; apply Inv_frame; auto.
+  - apply pool_kill_frame.
+  - apply give_up_frame.
+  - apply pool_forget_frame.
+  - apply pool_set_ib_frame.
+  - apply pool_shutdown_frame.
+  - apply pool_sweep_frame.
+Qed.
